@@ -13,7 +13,12 @@ LIB_SENTINEL_CTOR = "Sentinel"
 # path context
 # =====================================================================================
 class Ctx:
+    # PYVC_SOLVER_SCALE multiplies every solver time limit (the checker re-runs a job with a larger scale before it
+    # accepts that an obligation stays `unknown`)
+    SCALE = float(__import__("os").environ.get("PYVC_SOLVER_SCALE", "1") or 1)
+
     def __init__(self, decisions, timeout_ms=20000):
+        timeout_ms = int(timeout_ms * self.SCALE)
         self.solver = z3.Solver()
         self.solver.set("timeout", timeout_ms)
         self.pc = []
@@ -51,7 +56,7 @@ class Ctx:
             # sequence-heavy jobs: z3's incremental solver degrades badly on the seq theory; a fresh solver per
             # query decides the same formulas in milliseconds
             s = z3.Solver()
-            s.set("timeout", 10000)
+            s.set("timeout", int(10000 * self.SCALE))
             s.add(self.solver.assertions())
             s.add(*fs)
             r = s.check()
@@ -126,7 +131,7 @@ class Ctx:
         import time
         t = time.time()
         s = z3.Solver()
-        s.set("timeout", 10000)
+        s.set("timeout", int(10000 * self.SCALE))
         s.add(self.solver.assertions())
         s.add(extra)
         r = s.check()
@@ -154,7 +159,8 @@ class Ctx:
                 # unsat for every interpretation implies unsat for z3's)
                 fh.write("(set-logic ALL)\n" + text.replace("seq.nth_i", "seq.nth"))
                 path = fh.name
-            p = subprocess.run(["/usr/bin/cvc5", "--strings-exp", "--tlimit=20000", path], capture_output=True, text=True, timeout=30)
+            p = subprocess.run(["/usr/bin/cvc5", "--strings-exp", f"--tlimit={int(20000 * self.SCALE)}", path], capture_output=True, text=True,
+                               timeout=int(30 * self.SCALE))
             os.unlink(path)
         except Exception:
             return None
@@ -1048,6 +1054,8 @@ class Interp:
 
     def ctx_repoll(self, src):
         self.ctx.repolls = getattr(self.ctx, "repolls", 0) + 1
+        by = self.ctx.__dict__.setdefault("repolls_by_side", {"impl": 0, "ref": 0})
+        by[self.side] += 1
 
     def aclose_outcome(self, src):
         """jobs with `aclose_faults`: the source's own aclose may fail or be cancelled (decided once per source, by
@@ -2127,6 +2135,13 @@ class Frame:
             return mk_bool(z3.Xor(a, b))
         if isinstance(l, tuple) and isinstance(r, tuple) and isinstance(op, ast.Add):
             return l + r
+        if isinstance(op, ast.Mult) and (isinstance(l, SList) or isinstance(r, SList)):
+            lst, n = (l, r) if isinstance(l, SList) else (r, l)
+            if lst.seq is None and isinstance(n, int) and type(lst) is SList and all(x is None or isinstance(x, (bool, int, str)) for x in lst.items):
+                return SList(items=list(lst.items) * n)
+            raise Unsupported("list repetition of a symbolic list / by a symbolic count")
+        if isinstance(l, SList) and isinstance(r, SList) and isinstance(op, ast.Add) and l.seq is None and r.seq is None:
+            return SList(items=list(l.items) + list(r.items))
         if isinstance(l, str) or isinstance(r, str):
             if isinstance(op, ast.Add) and isinstance(l, str) and isinstance(r, str):
                 return l + r
